@@ -8,7 +8,7 @@
    acknowledged when all its bytes are inside k.  [the_cfg] is the configuration regenerated from
    the source on every run (tail repair, record order, index handling). *)
 From NV.Common Require Import Base WalFormat.
-From NV.C02 Require Import Model Proofs Run Inst.
+From NV.C02 Require Import Model Proofs Tight Run Inst.
 Open Scope N_scope.
 
 (* Recovery after a crash at ANY byte: it never fails; the recovered store is good again; its
@@ -30,28 +30,26 @@ Theorem C02_recover_any_byte :
 Proof. exact recover_any_byte. Qed.
 
 (* "exactly the state produced by some prefix of the writes, and that prefix includes every write
-   whose call had returned": for every key the recovered store shows what the live store showed
-   after p calls, a <= p <= a+1.
-   PARTIAL: proved for every crash point except those that fall strictly inside the three records
-   of a delete_durable of an indexed embedding key (EmbeddingDelete / EntityRemove / MetadataDelete);
-   for those the theorem above still gives the exact internal state, and the observation equality
-   (which needs the invariant "slab vector = vector inside the metadata") is checked by the
-   correspondence harness at every byte but not proved here.  Also outside: non-embedding keys that
-   carry an `_embedding` (class [plain]) and the step boundaries inside checkpoint(). *)
-Theorem C02_recovered_is_a_prefix_state_partial :
+   whose call had returned": for EVERY crash byte, for every key, the recovered store shows what the
+   live store showed after p calls, where a <= p <= a+1 and a is the number of acknowledged calls.
+   [good2] = [good] + [Tight] (indexed keys have metadata, the slab holds no vector other than the
+   one inside the metadata, one live index entry per key); it holds for a fresh store and is
+   re-established by every recovery.
+   Scope of the theorems (the rest is covered by the correspondence check + oracle only): calls of
+   class [plain] (only embedding-class keys carry an `_embedding`), SyncMode::Immediate semantics
+   (every record on disk before the call returns), no checkpoint / rotation steps. *)
+Theorem C02_recovered_is_a_prefix_state :
   forall (ser : wentry -> list byte) (deser : list byte -> option wentry) (crc : list byte -> N),
   (forall e, deser (ser e) = Some e) -> (forall d, crc d < 4294967296) -> (forall e, wf ser e) ->
-  forall d ops k, good ser crc d -> Forall plain ops -> (length (file d) <= k)%nat ->
-  exists d2 a,
+  forall d ops k, good2 ser crc d -> Forall plain ops -> (length (file d) <= k)%nat ->
+  exists d2 a p,
     recover deser crc the_cfg (firstn k (file (run ser crc the_cfg d ops))) (snap d) = Some d2 /\
-    good ser crc d2 /\ (a <= length ops)%nat /\
+    good2 ser crc d2 /\ (a <= length ops)%nat /\
     (length (file (run ser crc the_cfg d (firstn a ops))) <= k)%nat /\
     (a = length ops \/ (k < length (file (run ser crc the_cfg d (firstn (S a) ops))))%nat) /\
-    ((forall o, nth_error ops a = Some o ->
-        ~ torn_indexed_delete (st (run ser crc the_cfg d (firstn a ops))) o) ->
-     exists p, (a <= p <= S a)%nat /\ (p <= length ops)%nat /\
-       forall K, observe K (st d2) = observe K (st (run ser crc the_cfg d (firstn p ops)))).
-Proof. exact recovered_is_a_prefix_state. Qed.
+    (a <= p <= S a)%nat /\ (p <= length ops)%nat /\
+    forall K, observe K (st d2) = observe K (st (run ser crc the_cfg d (firstn p ops))).
+Proof. exact recovered_is_a_prefix_state_full. Qed.
 
 (* "A store recovered once keeps this guarantee for everything written after the recovery,
    including when the first crash left a partially written record": any number of
@@ -60,9 +58,9 @@ Proof. exact recovered_is_a_prefix_state. Qed.
 Theorem C02_any_number_of_crashes :
   forall (ser : wentry -> list byte) (deser : list byte -> option wentry) (crc : list byte -> N),
   (forall e, deser (ser e) = Some e) -> (forall d, crc d < 4294967296) -> (forall e, wf ser e) ->
-  forall gens d, good ser crc d -> Forall (fun g => Forall plain (fst g)) gens ->
-  exists d', run_gens ser deser crc d gens = Some d' /\ good ser crc d'.
-Proof. exact generations_good. Qed.
+  forall gens d, good2 ser crc d -> Forall (fun g => Forall plain (fst g)) gens ->
+  exists d', run_gens ser deser crc d gens = Some d' /\ good2 ser crc d'.
+Proof. exact generations_good2. Qed.
 
 (* the simulation at the heart of it: the records a call logs replay to exactly its live effect *)
 Theorem C02_log_replays_to_live_state : forall s o, Good s -> plain o ->
@@ -71,16 +69,16 @@ Proof. exact op_replay_eq. Qed.
 
 (* non-vacuity: a fresh store is good; the call list is in the proved class and logs records *)
 Example C02_hypotheses_satisfiable :
-  (forall ser crc, good ser crc d0) /\
+  (forall ser crc, good2 ser crc d0) /\
   Forall plain [Put 0 (V 1 (Some 100)); Put 1 (V 2 None); Del 0; Put 5 (V 3 (Some 1)); Del 7; Put 4 (V 1 None)] /\
   recs empty_store [Put 0 (V 1 (Some 100)); Del 0] =
     [MetaSet 0 (V 1 (Some 100)); EmbSet 0 100; EmbDel 0; EntRemove 0; MetaDel 0].
 Proof.
-  split; [exact good_d0|]. split; [|vm_compute; reflexivity].
+  split; [exact good2_d0|]. split; [|vm_compute; reflexivity].
   repeat constructor; cbn; intros; try reflexivity; try discriminate.
 Qed.
 
 Print Assumptions C02_recover_any_byte.
-Print Assumptions C02_recovered_is_a_prefix_state_partial.
+Print Assumptions C02_recovered_is_a_prefix_state.
 Print Assumptions C02_any_number_of_crashes.
 Print Assumptions C02_log_replays_to_live_state.
